@@ -124,34 +124,43 @@ type Goal struct {
 }
 
 type State struct {
-	w        *World
-	x        *Exec
-	frame    *Frame
-	heap     map[string]Term
-	declared map[string]bool
-	tail     *node
-	alloc    Term
-	panicVal *Term // non-nil while panicking
-	unwind   bool
-	ghost    map[string]Term // ghost globals ($log ...)
-	closures map[string]*ClosureVal
-	dead     bool
-	nIter    int
-	steps    int
-	oldHeap  map[string]Term // heap at function entry
-	oldGhost map[string]Term
-	oldAlloc Term
-	labels   map[string]*snapshot // named snapshots (after contract calls)
+	w         *World
+	x         *Exec
+	frame     *Frame
+	heap      map[string]Term
+	declared  map[string]bool
+	tail      *node
+	alloc     Term
+	panicVal  *Term // non-nil while panicking
+	unwind    bool
+	ghost     map[string]Term // ghost globals ($log ...)
+	closures  map[string]*ClosureVal
+	dead      bool
+	nIter     int
+	steps     int
+	oldHeap   map[string]Term // heap at function entry
+	oldGhost  map[string]Term
+	oldAlloc  Term
+	labels    map[string]*snapshot // named snapshots (after contract calls)
+	tiAllocs  []tiAlloc
+	noTypeInv bool
+	recovered *Term // value returned by the last successful recover()
+}
+
+type tiAlloc struct {
+	ref Term
+	key string
 }
 
 type snapshot struct {
-	heap  map[string]Term
-	ghost map[string]Term
-	alloc Term
+	heap    map[string]Term
+	ghost   map[string]Term
+	alloc   Term
+	results []SVal
 }
 
-func (s *State) setLabel(name string) {
-	sn := &snapshot{heap: map[string]Term{}, ghost: map[string]Term{}, alloc: s.alloc}
+func (s *State) setLabel(name string, results []SVal) {
+	sn := &snapshot{heap: map[string]Term{}, ghost: map[string]Term{}, alloc: s.alloc, results: results}
 	for k, v := range s.heap {
 		sn.heap[k] = v
 	}
